@@ -41,7 +41,13 @@ THEOREMS = [
     "HedVerif.C13.merge_keeps_forms",
     "HedVerif.C13.rooted_placed_under_root",
     "HedVerif.C13.refuse_clash",
+    "HedVerif.C13.wellFormed_distinct",
+    "HedVerif.C13.refuse_unpartnered",
+    "HedVerif.C13.load_two_ok",
+    "HedVerif.C13.refuse_shared_name",
 ]
+STANDARDS = ["8.0.0", "8.1.0", "8.2.0", "8.3.0"]
+LIBRARIES = ["score_1.0.0", "score_1.1.0", "score_2.0.0", "testlib_1.0.2", "testlib_2.0.0", "testlib_2.1.0", "testlib_3.0.0"]
 BUDGET = {"quick": 600, "thorough": 3000}
 
 SIG_CASE = "C13-prefix-case-collision"
@@ -375,7 +381,9 @@ def run_group(ctx, members, n_ann, hed):
     reqs = [{"op": "c13.find", "members": mm, "texts": texts + bad},
             {"op": "c13.attrs", "members": mm, "annotations": [a[0] for a in attr_cases]}]
     ans = ctx.model.batch(reqs)
-    if not ans[0]["wellformed"] or not all(ans[0]["wf"]):
+    if not ans[0]["wellformed"]:
+        ctx.disagree("wellFormed g = HedSchemaGroup accepts the prefixes", {"group": [list(x) for x in members]}, False, True)
+    if not all(ans[0]["wf"]):
         ctx.notes.append(f"group {label}: hypotheses of the dispatch theorems not met (wf={ans[0]['wf']})")
     ctx.count(f"group:{label}:WF={all(ans[0]['wf'])}")
     for text, m in zip(texts + bad, ans[0]["results"]):
@@ -464,28 +472,36 @@ def only_extra_not_unique(cg, ca):
 
 
 def case_collision(ctx, hed):
-    """prefixes differing only in case: distinct keys of the group, but the unique/required matching folds case"""
+    """prefixes differing only in case: the unique/required matching folds case, so such a group must not exist
+    (fix 1a730be: refused by the group constructor); model `wellFormed` = constructor's verdict"""
     HedString, HedTag, load_schema_version, GroupValidator = hed
     from hed.errors.exceptions import HedFileError
-    members = [("sc:", "8.3.0"), ("SC:", "8.2.0")]
-    try:
-        group = load_group(load_schema_version, members)
-    except HedFileError as e:
-        ctx.count("case-colliding-prefixes-refused:" + str(e.code))
-        return
-    alone = load_schema_version("8.3.0")
-    items = [["g", ["t", "Event-context"], ["g", ["t", "Red"]]], ["g", ["t", "Event-context"], ["g", ["t", "Blue"]]]]
-    cg, ca = codes_of(HedString, render(items, "sc:"), group), codes_of(HedString, render(items, ""), alone)
-    tags = HedString(render(items, "sc:"), group).get_all_tags()
-    mm = model_members(ctx, members)
-    m = ctx.model.batch([{"op": "c13.attrs", "members": mm, "annotations": [[t.long_tag for t in tags]]}])[0]["results"][0]
-    n = len(GroupValidator(group).check_multiple_unique_tags_exist(tags))
-    ctx.case(("case-collision",), nontrivial=True)
-    if len(m["unique"]) != n:
-        ctx.disagree("uniqueIssues = check_multiple_unique_tags_exist (case-colliding prefixes)", {"items": items}, m, n)
-    if cg != ca:
-        ctx.violation("prefixed-in-group != unprefixed-alone", {"group": [list(x) for x in members], "prefix": "sc:", "items": items},
-                      {"group": cg, "alone": ca}, signature=SIG_CASE if only_extra_not_unique(cg, ca) else None)
+    for members in ([("sc:", "8.3.0"), ("SC:", "8.2.0")], [("Tl:", "testlib_3.0.0"), ("", "8.3.0"), ("tL:", "8.2.0")],
+                    [("sc:", "8.3.0"), ("sd:", "8.2.0")]):
+        mm = [{"ns": p, "tags": [], "required": [], "unique": []} for p, _ in members]
+        wf = ctx.model.batch([{"op": "c13.find", "members": mm, "texts": []}])[0]["wellformed"]
+        ctx.case(("case-collision", tuple(p for p, _ in members)), nontrivial=True)
+        try:
+            group = load_group(load_schema_version, members)
+        except HedFileError as e:
+            ctx.count("case-colliding-prefixes-refused:" + str(e.code))
+            if wf:
+                ctx.disagree("wellFormed g = HedSchemaGroup accepts the prefixes", {"group": [list(x) for x in members]}, wf, str(e.code))
+            continue
+        if not wf:
+            ctx.disagree("wellFormed g = HedSchemaGroup accepts the prefixes", {"group": [list(x) for x in members]}, wf, "accepted")
+        if len({p.casefold() for p, _ in members}) == len(members):
+            continue
+        # accepted although two prefixes collide: show the consequence on the repeated unique tag
+        p, spec = members[0]
+        alone = load_schema_version(spec)
+        items = [["g", ["t", "Event-context"], ["g", ["t", "Red"]]], ["g", ["t", "Event-context"], ["g", ["t", "Blue"]]]]
+        cg, ca = codes_of(HedString, render(items, p), group), codes_of(HedString, render(items, ""), alone)
+        if cg != ca:
+            ctx.violation("prefixed-in-group != unprefixed-alone", {"group": [list(x) for x in members], "prefix": p, "items": items},
+                          {"group": cg, "alone": ca}, signature=SIG_CASE if only_extra_not_unique(cg, ca) else None)
+        else:
+            ctx.violation("case-colliding-prefixes-accepted", {"group": [list(x) for x in members], "prefix": p, "items": items}, cg)
 
 
 def capitalisation_probe(ctx, hed):
@@ -564,6 +580,83 @@ def run_refusals(ctx, load_schema_version):
     if m.get("err") != "SCHEMA_DUPLICATE_NAMES":
         ctx.disagree("mergeInto refuses testlib_2.0.0,testlib_2.1.0", {"versions": ["testlib_2.0.0", "testlib_2.1.0"]}, m,
                      "SCHEMA_DUPLICATE_NAMES")
+
+
+def source_of(name):
+    V = vocab_of(name)
+    return {"ws": V["header"].get("withStandard", ""), "tags": V["longs"],
+            "lib": [i for i, l in enumerate(V["longs"]) if "inLibrary" in V["attrs"][l]]}
+
+
+def short_names(V, only_lib=False):
+    return {l.split("/")[-1].casefold() for l in V["nodes"] if not only_lib or "inLibrary" in V["attrs"][l]}
+
+
+def expected_pair(a, b):
+    """independent expectation for loading [a, b] under one prefix, from our XML reader's vocabularies:
+    'refuse' when the two vocabularies share a tag name under that prefix, except for the documented merge of two
+    libraries of the same partner, whose common (partner) part is one schema: there only the second's own tags count;
+    'load' for a same-partner pair without a common name; None = no clash and not a documented merge."""
+    Va, Vb = vocab_of(a), vocab_of(b)
+    wa, wb = Va["header"].get("withStandard", ""), Vb["header"].get("withStandard", "")
+    if wa and wa == wb:
+        return "refuse" if short_names(Va) & short_names(Vb, only_lib=True) else "load"
+    return "refuse" if short_names(Va) & short_names(Vb) else None
+
+
+def check_pair(ctx, load_schema_version, a, b, p, m):
+    """one ordered pair under prefix p; m = the model's verdict (c13.load) for (a, b)"""
+    from hed.errors.exceptions import HedFileError, HedExceptions
+    vs = [p + a, p + b]
+    case = {"load_versions": vs}
+    want = expected_pair(a, b)
+    try:
+        s = load_schema_version(vs)
+        r = {"ok": sorted(e.name for e in s.tags.all_names.values())}
+    except HedFileError as e:
+        r = {"err": str(e.code)}
+    ctx.case(("load-pair", tuple(vs)), nontrivial=True,
+             sample={"versions": vs, "outcome": r.get("err", "loaded"), "expected": want} if want == "load" else None)
+    ctx.count(f"pair:{'refused:' + r['err'] if 'err' in r else 'loaded'}:expected-{want}")
+    if want == "refuse" and "ok" in r:
+        ctx.violation("clashing-names-under-one-prefix-not-refused", case,
+                      {"loaded_as": s.get_formatted_version(), "shared_names": len(short_names(vocab_of(a)) & short_names(vocab_of(b)))})
+    if want == "load" and "err" in r:
+        ctx.violation("same-partner-libraries-without-common-names-refused", case, r)
+    code = {"SCHEMA_DUPLICATE_PREFIX": str(HedExceptions.SCHEMA_DUPLICATE_PREFIX),
+            "BAD_WITH_STANDARD_MULTIPLE_VALUES": str(HedExceptions.BAD_WITH_STANDARD_MULTIPLE_VALUES),
+            "SCHEMA_DUPLICATE_NAMES": str(HedExceptions.SCHEMA_DUPLICATE_NAMES)}
+    m2 = {"ok": sorted(m["ok"])} if "ok" in m else {"err": code.get(m["err"], m["err"])}
+    if m2 != r:
+        short = lambda x: x if "err" in x else {"ok": len(x["ok"])}
+        ctx.disagree("loadVersions (header guards, library-only append, duplicate check) = load_schema_version([a, b])",
+                     case, short(m2), short(r))
+
+
+def run_load_matrix(ctx, load_schema_version):
+    """every ordered pair of bundled versions under the empty and under a common prefix (thorough), a seeded sample that
+    always contains library-then-standard for every library and standard (quick)"""
+    rng = ctx.rng
+    names = STANDARDS + LIBRARIES
+    pairs = [(a, b) for a in names for b in names if a != b]
+    if ctx.quick():
+        must = [(l, s) for l in LIBRARIES for s in STANDARDS]
+        partnered = [n for n in LIBRARIES if vocab_of(n)["header"].get("withStandard")]
+        same = [(a, b) for a in partnered for b in partnered if a != b and expected_pair(a, b) == "load"]
+        other = [pr for pr in pairs if pr not in must]
+        todo = [(a, b, rng.choice(["", "cp:"])) for a, b in must] + \
+               [(a, b, rng.choice(["", "cp:"])) for a, b in rng.sample(same, min(3, len(same))) + rng.sample(other, 14)]
+    else:
+        todo = [(a, b, p) for a, b in pairs for p in ("", "cp:")]
+    need = sorted({(a, b) for a, b, _ in todo})
+    ans = ctx.model.batch([{"op": "c13.load", "first": source_of(a), "rest": [source_of(b)]} for a, b in need] +
+                          [{"op": "c13.versions", "versions": [p + a, p + b]} for a, b, p in todo])
+    verdict = dict(zip(need, ans[:len(need)]))
+    for (a, b, p), v in zip(todo, ans[len(need):]):
+        if "ok" not in v or v["ok"] != [[p[:-1], f"{p}{a},{b}"]]:
+            ctx.disagree("parseVersionList groups the two versions under their prefix", {"versions": [p + a, p + b]}, v, "one group")
+        check_pair(ctx, load_schema_version, a, b, p, verdict[(a, b)])
+        ctx.check_time()
 
 
 # ------------------------------------------------------------------------------------ merge
@@ -769,6 +862,7 @@ def run(ctx):
         run_versions(ctx)
         run_prefix_syntax(ctx, hed[2])
         run_refusals(ctx, hed[2])
+        run_load_matrix(ctx, hed[2])
         run_merge(ctx, hed, from_string, tmp)
         synthetic_libs(ctx, from_string, hed[2], tmp)
         synthetic_required(ctx, hed, from_string, HedSchemaGroup)
@@ -792,6 +886,14 @@ def replay(ctx, rec):
     case = rec.get("case") or (rec.get("disagreements") or [{}])[0].get("case")
     if not case:
         print("nothing to replay (obligation-only record):", rec.get("broken_obligations"))
+        return
+    if "load_versions" in case:
+        vs = case["load_versions"]
+        p = vs[0][:vs[0].index(":") + 1] if ":" in vs[0] else ""
+        a, b = vs[0][len(p):], vs[1][len(p):]
+        m = ctx.model.batch([{"op": "c13.load", "first": source_of(a), "rest": [source_of(b)]}])[0]
+        print("versions:", vs, "expected:", expected_pair(a, b), "model:", m.get("err", "loads"))
+        check_pair(ctx, load_schema_version, a, b, p, m)
         return
     if "versions" in case and isinstance(case["versions"], list):
         m = ctx.model.batch([{"op": "c13.versions", "versions": case["versions"]}])[0]
